@@ -8,6 +8,8 @@ CONSTANTS Conns, Burst, R, Chunk, Horizon,
           PerConn,   \* mutant: one limiter per connection instead of per listener
           NoWait,    \* mutant: WaitN result ignored
           MaxWait,   \* mutant (if > 0): WaitN gives up - charging nothing - when the wait would exceed MaxWait ticks
+          BigUncharged, \* as found: an I/O of more bytes than the burst is not charged at all (WaitN refuses n > burst
+                        \* at once, and the refusal is ignored)
           Batch      \* mutant (if > 0): a connection charges the limiter only once Batch bytes have piled up; what is
                      \* still pending when the connection ends is never charged
 
@@ -29,7 +31,8 @@ Tick == /\ now < Horizon /\ now' = now + 1
 IO(c, n) ==
   /\ wake[c] <= now
   /\ LET b == Bk(c)
-         due == IF Batch > 0 THEN (IF pend[c] + n >= Batch THEN pend[c] + n ELSE 0) ELSE n     \* what is charged now
+         due == IF BigUncharged /\ n > Burst THEN 0
+                ELSE IF Batch > 0 THEN (IF pend[c] + n >= Batch THEN pend[c] + n ELSE 0) ELSE n     \* what is charged now
          avail == Min(Burst, tokens[b] + R * (now - last[b]))
          left == avail - due
          need == IF left >= 0 THEN 0 ELSE CeilDiv(0 - left, R)
@@ -65,7 +68,11 @@ Crowd == 64
 Cases == [read : Limits, write : Limits, conns : 1..3, dir : {"download", "upload"}, kind : {"plain", "tunnel"}, churn : {FALSE}]
          \cup [read : {0, 1}, write : {0, 1}, conns : {Crowd}, dir : {"download", "upload"}, kind : {"plain", "tunnel"}, churn : {FALSE}]
          \cup [read : {0, 4}, write : {0, 4}, conns : {4}, dir : {"download", "upload"}, kind : {"plain"}, churn : {TRUE}]
+\* big: one reply body reaches the listener in a single write larger than the burst (with --log-http body the proxy holds
+\* the whole body in memory); the cases carry big |-> TRUE
+BigCases == [read : {4}, write : {0}, conns : {1}, dir : {"download"}, kind : {"plain"}, churn : {FALSE}]
 LimitFor(c) == IF c.dir = "download" THEN c.read ELSE c.write
 Expect(c) == [limited |-> LimitFor(c) # 0, rate |-> LimitFor(c)]
-EmitCases == \A c \in Cases : PrintT(ToJson([c |-> c, exp |-> Expect(c)]))
+EmitCases == /\ \A c \in Cases : PrintT(ToJson([c |-> c, exp |-> Expect(c), big |-> FALSE]))
+             /\ \A c \in BigCases : PrintT(ToJson([c |-> c, exp |-> Expect(c), big |-> TRUE]))
 ==============================================================================
